@@ -19,8 +19,32 @@ func init() {
 
 const target = "main.rb"
 
-var reDiag = regexp.MustCompile(`^` + regexp.QuoteMeta(target) + `:::[0-9]+:::`)
-var reHint = regexp.MustCompile(`^@` + regexp.QuoteMeta(target) + `:::[0-9]+:::`)
+// A diagnostic or hint names the file it is about: the target or, when the scenario has a
+// .ti-loader.json, one of the preloaded files (lib.rb, lib2.rb).
+var reDiag = regexp.MustCompile(`^(main|lib|lib2)\.rb:::[0-9]+:::`)
+var reHint = regexp.MustCompile(`^@(main|lib|lib2)\.rb:::[0-9]+:::`)
+
+// withPreload adds a .ti-loader.json and one or two preloaded files to a disk image.
+func withPreload(c *Ctx, r *Rng, files map[string][]byte) {
+	names := []string{"lib.rb"}
+	if r.Chance(1, 3) {
+		names = append(names, "lib2.rb")
+	}
+	if r.Chance(1, 6) {
+		names = append(names, "missing.rb") // listed but absent: open errors are skipped silently
+	}
+	for _, n := range names {
+		if n == "missing.rb" {
+			continue
+		}
+		src, _ := pickProgram(c, r, false)
+		if r.Chance(1, 4) {
+			src, _ = ApplyFault("F1-torn", src, nil, r)
+		}
+		files[n] = src
+	}
+	files[".ti-loader.json"] = []byte(`{"preload":["` + strings.Join(names, `","`) + `"]}`)
+}
 var reDigits = regexp.MustCompile(`[0-9]+`)
 
 func lineShape(l string) string {
@@ -96,6 +120,16 @@ func (o *tiInput) ExpectedFaults() []string { return faultKinds }
 
 func pickProgram(c *Ctx, r *Rng, ties bool) ([]byte, string) {
 	switch k := r.Intn(20); {
+	case k < 1:
+		// a long file: several corpus programs back to back (size-dependent behaviour)
+		var b []byte
+		for n := r.Range(3, 9); n > 0 && len(b) < 14000; n-- {
+			b = append(b, c.Corpus[r.Intn(len(c.Corpus))].Src...)
+			if len(b) > 0 && b[len(b)-1] != '\n' {
+				b = append(b, '\n')
+			}
+		}
+		return b, "concatenated"
 	case k < 10:
 		p := c.Corpus[r.Intn(len(c.Corpus))]
 		return p.Src, "corpus:" + p.Name
@@ -242,6 +276,10 @@ func (o *tiInput) Make(c *Ctx, i int) *Case {
 	st := Step{Node: "ti", Files: map[string][]byte{target: content}, Argv: argv, Seed: r.U64(), Sched: "seeded"}
 	if r.Chance(1, 4) {
 		st.Sched = "canon"
+	}
+	if i >= len(o.sweep) && r.Chance(1, 12) {
+		withPreload(c, r, st.Files)
+		cs.Faults = append(cs.Faults, "preload")
 	}
 	cs.Steps = []Step{st}
 	cs.Ctx += fmt.Sprintf("|m%d", mode)
